@@ -173,7 +173,11 @@ class Ctx(object):
             self._cg = M.CallGraph(self.facts)
         return self._cg
 
-    def rule(self, rid, desc, floor=1):
+    def rule(self, rid, desc, floor=1, floor_notls=None):
+        """floor = number of instances confirmed on the pinned tree (default features);
+        floor_notls = the same for the --no-default-features configuration when it differs."""
+        if self.config == 'notls' and floor_notls is not None:
+            floor = floor_notls
         return RuleRun(self, rid, desc, floor)
 
     def vocabulary(self):
